@@ -838,6 +838,10 @@ def createVars (p : ProfileDb α) : List (String × Var α) := [
 def setAttr (as : List (String × AttrVal α)) (k : String) (v : AttrVal α) : List (String × AttrVal α) :=
   if as.any (·.1 == k) then as.map fun a => if a.1 == k then (k, v) else a else as ++ [(k, v)]
 
+/-- change the values of an association list, keeping keys and order -/
+def mapVal {β : Type} (l : List (String × β)) (g : String → β → β) : List (String × β) :=
+  l.map fun e => (e.1, g e.1 e.2)
+
 /-- `fill_nc_db_variable`: an existing variable must carry the same units (else ValueError),
     a new one is created on dimension `z`; then the comment is attached -/
 def fillVar (vars : List (String × Var α)) (c : Col α) (long std : String) :
@@ -847,14 +851,23 @@ def fillVar (vars : List (String × Var α)) (c : Col α) (long std : String) :
     match v.attrs.lookup "units" with
     | some (.s u) =>
       if u == c.units then
-        some (vars.map fun e => if e.1 == c.name then
-          (e.1, { v with data := .f1 (c.vals.map some), attrs := setAttr v.attrs "comment" (.s c.comment) })
-          else e)
+        some (mapVal vars fun k w => if k == c.name then
+          { v with data := .f1 (c.vals.map some), attrs := setAttr v.attrs "comment" (.s c.comment) } else w)
       else none
     | _ => none
   | none =>
     some (vars ++ [(c.name, ⟨"f8", ["z"], .f1 (c.vals.map some),
       va long std c.units ++ coordAttr ++ [("comment", .s c.comment)]⟩)])
+
+/-- `z.valid_min = np.min(z[:]); z.valid_max = np.max(z[:])` (l.2053-2054) -/
+def setValid (vars : List (String × Var α)) (z : Col α) : List (String × Var α) :=
+  mapVal vars fun k w => if k == z.name then
+    { w with attrs := setAttr (setAttr w.attrs "valid_min" (.f (minL z.vals))) "valid_max" (.f (maxL z.vals)) }
+  else w
+
+/-- the dependent variables, in `var_symbols` order (l.2099-2111) -/
+def fillCols (vars : List (String × Var α)) (cols : List (Col α)) : Option (List (String × Var α)) :=
+  cols.foldlM (fun vs c => fillVar vs c (pyCapitalize (stdName c.name)) (stdName c.name)) vars
 
 /-- `create_nc_db` followed by one `fill_nc_db` into the empty data base -/
 def saveProfile (created modified : String) (p : ProfileDb α) : Option (File α) := do
@@ -862,11 +875,7 @@ def saveProfile (created modified : String) (p : ProfileDb α) : Option (File α
   let h : File α := header ⟨title, p.summary, p.source, created, modified⟩
   -- the z column first (l.2041-2054), then valid_min / valid_max
   let v1 ← fillVar (createVars p) p.z "" ""
-  let v2 := v1.map fun e => if e.1 == p.z.name then
-      (e.1, { e.2 with attrs := setAttr (setAttr e.2.attrs "valid_min" (.f (minL p.z.vals)))
-                                  "valid_max" (.f (maxL p.z.vals)) })
-    else e
-  let vars ← p.cols.foldlM (fun vs c => fillVar vs c (pyCapitalize (stdName c.name)) (stdName c.name)) v2
+  let vars ← fillCols (setValid v1 p.z) p.cols
   pure { attrs := h.attrs ++ [("sea_name", .s p.sea_name)],
          dims := [("z", p.z.vals.length), ("profile", 1)],
          vars := vars }
